@@ -177,7 +177,8 @@ def leaves():
          (u"phrase alfa bravo", lambda: query.Phrase("t", [u"alfa", u"bravo"]), phrase_match([u"alfa", u"bravo"], 1)),
          (u"phrase bravo alfa~2", lambda: query.Phrase("t", [u"bravo", u"alfa"], slop=2), phrase_match([u"bravo", u"alfa"], 2)),
          (u"null", lambda: query.NullQuery, lambda d: False),
-         (u"spanfirst alfa<=1", lambda: _spans().SpanFirst(query.Term("t", u"alfa"), limit=1), lambda d: u"alfa" in toks(d)[:2]),
+         (u"spanfirst (alfa|alto)<=1", lambda: _spans().SpanFirst(query.Or([query.Term("t", u"alfa"), query.Term("t", u"alto")]), limit=1),
+          lambda d: any(t in (u"alfa", u"alto") for t in toks(d)[:2])),
          ]
     return L
 
